@@ -43,7 +43,7 @@ func (f *rpcStore) LoadBlockMeta(h int64) *tmtypes.BlockMeta {
 // height; the answer must be the native balance the `account` query reports for that height, an answer for a past
 // height must never change, and the call must leave the node's state untouched.
 // Returns ("", "") when everything agrees or nothing could be probed.
-func (s *Sim) VmCallProbe() (kind, detail string) {
+func (s *Sim) VmCallProbe(target []byte) (kind, detail string) {
 	var view *ContractRef
 	for i := range s.Contracts {
 		if s.Contracts[i].Prog.Name == "balanceview" {
@@ -62,6 +62,9 @@ func (s *Sim) VmCallProbe() (kind, detail string) {
 		who := s.Keys[r.Intn(len(s.Keys))].Addr
 		if r.Chance(25) && len(s.Contracts) > 0 {
 			who = s.Contracts[r.Intn(len(s.Contracts))].Addr
+		}
+		if try == 0 && len(target) == 20 {
+			who = target // the account a pending CheckTx / the executing block just touched
 		}
 		h := int64(0)
 		if try == 1 {
